@@ -9,6 +9,7 @@ RUNS = {
     "C01": [
         {"name": "K1-codec", "mode": "k1", "budget": (6500, 130000), "nontrivial": r"recv=msg:",
          "keyfn": "k1"},
+        {"name": "K1-codec-primitives", "mode": "kprim", "budget": (30, 600), "nontrivial": r"out=x..|overrun=0", "keyfn": "generic"},
         {"name": "K3-reconstruction-over-both-read-paths", "mode": "k3", "budget": (120, 3000), "nontrivial": r"recv\d+=(msg|proto)", "keyfn": "generic"},
         {"name": "K7-messages-intact-while-in-use", "mode": "kalias", "budget": (70, 1400), "nontrivial": r"answered=1", "keyfn": "generic"},
     ],
@@ -109,6 +110,7 @@ RUNS = {
     ],
     "C02": [
         {"name": "K2-framing", "mode": "k2", "budget": (1500, 40000), "nontrivial": r"recv\d+=(msg|proto)", "keyfn": "k2"},
+        {"name": "K1-codec-primitives", "mode": "kprim", "budget": (30, 600), "nontrivial": r"out=x..|overrun=0", "keyfn": "generic"},
         {"name": "K2-server-receive-loop", "mode": "k2srv", "budget": (400, 12000), "nontrivial": r"replies=\d", "keyfn": "generic"},
         {"name": "K2-limit-after-version", "mode": "kmsz", "budget": (400, 20000), "nontrivial": r"reply=0", "keyfn": "generic"},
         {"name": "K3-both-read-paths", "mode": "k3", "budget": (40, 1000), "nontrivial": r"recv\d+=(msg|proto)", "keyfn": "generic"},
@@ -685,6 +687,10 @@ PROPS["C06"]["rule"] += (" kmutual: pairs of Tflush naming each other's tags wri
 PROPS["C08"]["level_text"] += (" Added: Trename/Trenameat/Tlink with the first fid fenced and the second bound refuse with EINVAL before the backend; "
     "Renamed(file, new parent file, new name) is in the call log after the callback loop for every live moved reference and stays there "
     "(Session/Calls.lean: the log only grows), references already being destroyed are skipped.")
+for _p in ("C01", "C02"):
+    PROPS[_p]["rule"] = PROPS[_p].get("rule", "") + (" kprim: every codec primitive (exported method of buffer, called through a reflective hook) against what "
+        "the extractor takes it to be (Gen.primTable, evaluated with encA / decA): writes of 21 boundary values and random values / strings up to 2000 bytes, "
+        "reads of every data length 0..11, well-formed, cut and extended strings, random data (sticky overrun flag, zero value, bytes left).")
 for _p in ("C01", "C02", "C03", "C18"):
     PROPS[_p]["rule"] = PROPS[_p].get("rule", "") + (" kalias: a request with string or payload arguments (mkdir, symlink, mknod, walk, unlinkat, write) is held "
         "inside its backend call while 4..14 further frames (same type with other strings of the same lengths, and getattrs) are received on this and "
